@@ -62,9 +62,11 @@ package v0
 //@ extern CListMempool.preCheck
 //@   assigns nothing
 
-// First-time CheckTx response: the pool stays well formed and within its limits, whatever the response.
+// First-time CheckTx response: the pool stays well formed and within its limits, whatever the response; a transaction
+// enters the pool only if the application's code is OK and the post-check (if any) passed.
 //@ func CListMempool.resCbFirstTime
 //@   checks allocwf
+//@   atcall CListMempool.addTx accepted: r.CheckTx.Code == 0 && postCheckErr == nil
 //@   requires wf: wfPool(mem) && withinLimits(mem)
 //@   ensures wf: wfPool(mem)
 //@   ensures limits: withinLimits(mem)
